@@ -105,7 +105,7 @@ def run_job(job):
             "__CPROVER_contracts_write_set_check_frees_clause_inclusion.0", "__CPROVER_contracts_write_set_check_assigns_clause_inclusion.0"))]
     if spec.solver:
         cmd3 += [spec.solver] if isinstance(spec.solver, str) else list(spec.solver)
-    cmd3 += ["--object-bits", str(spec.objbits or (13 if job.get("unwind") else 10)), "--no-malloc-may-fail"]
+    cmd3 += ["--object-bits", str(spec.objbits or (13 if res.get("fallback") else 10)), "--no-malloc-may-fail"]
     rc, so, se, dt = run(cmd3, spec.timeout)
     res["cmds"].append(" ".join(cmd3))
     res["time"] = time.time() - t0
